@@ -200,9 +200,9 @@ Qed.
 Lemma rnonce_setbal s a v x : rnonce (setbal c s a v) x = rnonce s x.
 Proof. unfold rnonce. rewrite log_setbal, nonce_setbal. simpl. destruct (oldest_nonce (log s) x); reflexivity. Qed.
 
-Lemma rstore_postev s e k : rstore (postev s e) k = rstore s k. Proof. reflexivity. Qed.
-Lemma rbal_postev s e x : rbal (postev s e) x = rbal s x. Proof. reflexivity. Qed.
-Lemma rnonce_postev s e x : rnonce (postev s e) x = rnonce s x. Proof. reflexivity. Qed.
+Lemma rstore_postev s i e k : rstore (postev s i e) k = rstore s k. Proof. reflexivity. Qed.
+Lemma rbal_postev s i e x : rbal (postev s i e) x = rbal s x. Proof. reflexivity. Qed.
+Lemma rnonce_postev s i e x : rnonce (postev s i e) x = rnonce s x. Proof. reflexivity. Qed.
 
 (** relation between the would-be-restored states before and after running a program *)
 Definition rrel (l : list (key * N)) (s s' : st) : Prop :=
@@ -235,10 +235,10 @@ Proof.
     + right. split; [exact F|]. exists v. split; [apply in_or_app; right; exact Hi | exact Hv].
 Qed.
 
-Lemma run_rrel p : forall s s' r, run c p s = (s', r) -> rrel (raws c p s) s s'.
+Lemma run_rrel p : forall cx s s' r, run c cx p s = (s', r) -> rrel (raws c cx p s) s s'.
 Proof.
   induction p as [| t | | a k IH | pk k IH | kk v k IH | kk k IH | kk v k IH | a v k IH | e k IH | callee inner IHi kok IHo kerr IHe];
-    intros s s' r H; simpl in H; simpl raws.
+    intros cx s s' r H; simpl in H; simpl raws.
   - inversion H; subst. apply rrel_refl.
   - inversion H; subst. apply rrel_refl.
   - inversion H; subst. apply rrel_refl.
@@ -256,7 +256,7 @@ Proof.
       * right. split; [exact F|]. exists v'. split; [right; exact Hi | exact Hv].
   - apply IH in H. eapply rrel_step; [| | | exact H]; intros; [apply rbal_setbal | apply rnonce_setbal | apply rstore_setbal].
   - apply IH in H. eapply rrel_step; [| | | exact H]; intros; reflexivity.
-  - destruct (run c inner s) as [s1 r1] eqn:E1.
+  - destruct (run c (callee_ctx c cx) inner s) as [s1 r1] eqn:E1.
     apply IHi in E1. destruct r1.
     + apply IHo in H. eapply rrel_trans; eassumption.
     + apply IHe in H. eapply rrel_trans; eassumption.
@@ -292,10 +292,10 @@ Qed.
 Lemma bset_ext b b' a v : (forall x, b x = b' x) -> forall x, bset b a v x = bset b' a v x.
 Proof. intros H x. unfold bset. destruct (x =? a)%N; [reflexivity | apply H]. Qed.
 
-Definition body_raws (t : tx) (s0 : st) : list (key * N) :=
+Definition body_raws (idx : N) (t : tx) (s0 : st) : list (key * N) :=
   if tx_invalid t then []
   else match tx_kind t with
-       | KBvm body | KIbtp body => raws c (body s0) s0
+       | KBvm body | KIbtp body => raws c (top_ctx idx t) (body s0) s0
        | _ => []
        end.
 
@@ -307,8 +307,8 @@ Proof.
   - intro k. rewrite r_nolog_store by reflexivity. rewrite revert_all_store. apply Hs.
 Qed.
 
-Lemma tx_body_rrel t s0 s1 res : tx_body c s0 t = (s1, res) ->
-  rrel (body_raws t s0) s0 s1 /\
+Lemma tx_body_rrel idx t s0 s1 res : tx_body c idx s0 t = (s1, res) ->
+  rrel (body_raws idx t s0) s0 s1 /\
   (is_ok res = false -> tx_invalid t = true \/ is_ibtp t = false \/ d_ibtp_no_revert c = false -> log s0 = [] -> log s1 = []).
 Proof.
   unfold tx_body, body_raws, is_ibtp. destruct (tx_invalid t).
@@ -318,11 +318,11 @@ Proof.
     apply do_transfer_rrel in E. intro H; inversion H; subst. destruct res; simpl.
     + split; [exact E | discriminate].
     + split; [apply rrel_revert; exact E | reflexivity].
-  - destruct (run c (body s0) s0) as [s' r] eqn:E. apply run_rrel in E.
+  - destruct (run c (top_ctx idx t) (body s0) s0) as [s' r] eqn:E. apply run_rrel in E.
     intro H; inversion H; subst. destruct res; simpl.
     + split; [exact E | discriminate].
     + split; [apply rrel_revert; exact E | reflexivity].
-  - destruct (run c (body s0) s0) as [s' r] eqn:E. apply run_rrel in E.
+  - destruct (run c (top_ctx idx t) (body s0) s0) as [s' r] eqn:E. apply run_rrel in E.
     intro H; inversion H; subst. destruct res; simpl.
     + split; [exact E | discriminate].
     + destruct (d_ibtp_no_revert c).
@@ -384,11 +384,11 @@ Theorem failed_characterised e idx s t s' rc cnt :
   (forall a, bal s' a = spec_bal e s t a) /\
   (forall a, nonce s' a = spec_nonce s t a) /\
   (forall k, store s' k = store s k \/
-             (d_raw_add c = true /\ exists v, In (k, v) (tx_raws c s t) /\ store s' k = Some v)).
+             (d_raw_add c = true /\ exists v, In (k, v) (tx_raws c idx s t) /\ store s' k = Some v)).
 Proof.
   intros Hfab Hib. unfold apply_tx.
-  destruct (tx_body c (clear_frame s) t) as [s1 res] eqn:Eb.
-  destruct (tx_body_rrel t (clear_frame s) s1 res Eb) as [[Hb [Hn Hs]] Hlog].
+  destruct (tx_body c idx (clear_frame s) t) as [s1 res] eqn:Eb.
+  destruct (tx_body_rrel idx t (clear_frame s) s1 res Eb) as [[Hb [Hn Hs]] Hlog].
   destruct (fee_phase c e s1 t res) as [s2 ok] eqn:Ef.
   intro H; inversion H; subst; clear H. cbn [r_ok]. intros ->.
   destruct (fee_phase_failed e s s1 t res s2 Hfab) as [Hb2 [Hn2 Hs2]];
@@ -405,7 +405,7 @@ Qed.
 Theorem failed_frame_generic e idx s t s' rc cnt :
   d_fee_after_body (x_fees c) = false ->
   tx_invalid t = true \/ is_ibtp t = false \/ d_ibtp_no_revert c = false ->
-  d_raw_add c = false \/ tx_raws c s t = [] ->
+  d_raw_add c = false \/ tx_raws c idx s t = [] ->
   apply_tx c e idx s t = (s', rc, cnt) -> r_ok rc = false ->
   frame_ok e s s' t.
 Proof.
@@ -439,17 +439,110 @@ Theorem failed_not_delivered c e idx s t s' rc cnt :
   d_failed_events c = false -> apply_tx c e idx s t = (s', rc, cnt) -> r_ok rc = false -> cnt = [].
 Proof.
   intros Hf. unfold apply_tx.
-  destruct (tx_body c (clear_frame s) t) as [s1 res].
+  destruct (tx_body c idx (clear_frame s) t) as [s1 res].
   destruct (fee_phase c e s1 t res) as [s2 ok].
   intro H; inversion H; subst. cbn [r_ok]. intros ->. rewrite Hf. reflexivity.
 Qed.
 
-(** every valid Counter entry of a transaction carries that transaction's index *)
-Lemma harvest_idx idx valid l x : In x (harvest idx valid l) -> fst (fst (snd x)) = idx.
+(** ---- the index an interchain event is stamped with ---- *)
+
+Lemma evs_touch_g s a : evs (touch s a) = evs s.
+Proof. unfold touch. destruct (loaded s a); reflexivity. Qed.
+Lemma evs_peek_g s k : evs (peek s k) = evs s.
+Proof. unfold peek. cbn [evs]. apply evs_touch_g. Qed.
+Lemma evs_jstore_g c s k v : evs (jstore c s k v) = evs s.
+Proof. unfold jstore. cbn [evs]. apply evs_touch_g. Qed.
+Lemma evs_rawadd_g c s k v : evs (rawadd c s k v) = evs s.
+Proof. unfold rawadd. destruct (d_raw_add c); [unfold rawstore; cbn [evs]; apply evs_touch_g | apply evs_jstore_g]. Qed.
+Lemma evs_setbal_g c s a v : evs (setbal c s a v) = evs s.
+Proof. unfold setbal. cbn [evs]. apply evs_touch_g. Qed.
+Lemma evs_setnonce_g c s a v : evs (setnonce c s a v) = evs s.
+Proof. unfold setnonce. cbn [evs]. apply evs_touch_g. Qed.
+Lemma evs_undo_list l : forall s, evs (undo_list l s) = evs s.
+Proof. induction l as [|u t IH]; intro s; simpl; [reflexivity|]. rewrite IH. destruct u; reflexivity. Qed.
+Lemma evs_revert_all s : evs (revert_all s) = evs s.
+Proof. unfold revert_all. cbn [evs]. apply evs_undo_list. Qed.
+Lemma evs_pay_each_s c adm : forall s fee, evs (pay_each_s c s adm fee) = evs s.
+Proof. induction adm as [|a t IH]; intros s fee; simpl; [reflexivity|]. rewrite IH. apply evs_setbal_g. Qed.
+
+(** a contract body run in context [cx] only appends events, and - when CrossInvoke hands the
+    caller's transaction index to the callee - every appended event carries [cx_index cx], however
+    deeply nested the posting contract is and whatever the inner frames return *)
+Lemma run_events_index c : d_cross_index_nonce c = false ->
+  forall p cx s s' r, run c cx p s = (s', r) ->
+  exists l, evs s' = evs s ++ l /\ Forall (fun ie : N * event => fst ie = cx_index cx) l.
 Proof.
-  unfold harvest. rewrite in_flat_map. intros [ev [_ H]]. destruct ev; [|destruct H].
-  apply in_map_iff in H. destruct H as [d [<- _]]. reflexivity.
+  intros Hx p.
+  induction p as [| t | | a k IH | pk k IH | kk v k IH | kk k IH | kk v k IH | a v k IH | e k IH | callee inner IHi kok IHo kerr IHe];
+    intros cx s s' r H; simpl in H.
+  - inversion H; subst. exists []. rewrite app_nil_r. split; [reflexivity | constructor].
+  - inversion H; subst. exists []. rewrite app_nil_r. split; [reflexivity | constructor].
+  - inversion H; subst. exists []. rewrite app_nil_r. split; [reflexivity | constructor].
+  - destruct (IH _ _ _ _ H) as [l [E F]]. exists l. rewrite E, evs_touch_g. split; [reflexivity | exact F].
+  - destruct (IH _ _ _ _ H) as [l [E F]]. exists l. rewrite E, evs_peek_g. split; [reflexivity | exact F].
+  - destruct (IH _ _ _ _ H) as [l [E F]]. exists l. rewrite E, evs_jstore_g. split; [reflexivity | exact F].
+  - destruct (IH _ _ _ _ H) as [l [E F]]. exists l. rewrite E, evs_jstore_g. split; [reflexivity | exact F].
+  - destruct (IH _ _ _ _ H) as [l [E F]]. exists l. rewrite E, evs_rawadd_g. split; [reflexivity | exact F].
+  - destruct (IH _ _ _ _ H) as [l [E F]]. exists l. rewrite E, evs_setbal_g. split; [reflexivity | exact F].
+  - destruct (IH _ _ _ _ H) as [l [E F]]. exists ((cx_index cx, e) :: l). rewrite E. unfold postev. cbn [evs].
+    rewrite <- app_assoc. split; [reflexivity | constructor; [reflexivity | exact F]].
+  - destruct (run c (callee_ctx c cx) inner s) as [s1 r1] eqn:E1.
+    destruct (IHi _ _ _ _ E1) as [l1 [El1 F1]].
+    assert (Hci : cx_index (callee_ctx c cx) = cx_index cx) by (unfold callee_ctx; rewrite Hx; reflexivity).
+    rewrite Hci in F1.
+    destruct r1; [destruct (IHo _ _ _ _ H) as [l2 [El2 F2]] | destruct (IHe _ _ _ _ H) as [l2 [El2 F2]]];
+      (exists (l1 ++ l2); rewrite El2, El1, <- app_assoc; split; [reflexivity | apply Forall_app; split; assumption]).
 Qed.
+
+Lemma harvest_idx valid l x idx : Forall (fun ie : N * event => fst ie = idx) l ->
+  In x (harvest valid l) -> fst (fst (snd x)) = idx.
+Proof.
+  intros F. unfold harvest. rewrite in_flat_map. intros [[i ev] [Hin H]]. cbn [fst snd] in H.
+  rewrite Forall_forall in F. specialize (F _ Hin). cbn [fst] in F.
+  destruct ev; [|destruct H]. apply in_map_iff in H. destruct H as [d [<- _]]. cbn [fst snd]. exact F.
+Qed.
+
+(** every Counter entry a transaction contributes names THAT transaction's position in the block -
+    also when the event was posted by a cross-invoked contract *)
+Theorem counter_entries_own_index c e idx s t s' rc cnt :
+  d_cross_index_nonce c = false ->
+  apply_tx c e idx s t = (s', rc, cnt) ->
+  forall x, In x cnt -> fst (fst (snd x)) = idx.
+Proof.
+  intros Hx. unfold apply_tx.
+  destruct (tx_body c idx (clear_frame s) t) as [s1 res] eqn:Eb.
+  destruct (fee_phase c e s1 t res) as [s2 ok] eqn:Ef.
+  intro H; inversion H; subst; clear H.
+  assert (Hb : Forall (fun ie : N * event => fst ie = idx) (evs s1)).
+  { revert Eb. unfold tx_body. destruct (tx_invalid t); [intro H; inversion H; subst; constructor|].
+    destruct (tx_kind t) as [to amt | body | body |].
+    - destruct (do_transfer c (clear_frame s) (tx_from t) to (parse_amount amt)) as [sx r] eqn:E.
+      assert (He : evs sx = []).
+      { revert E. unfold do_transfer. destruct (parse_amount amt =? 0); [intro H; inversion H; reflexivity|].
+        destruct ((parse_amount amt <? 0) && negb (d_neg_amount (x_fees c))); [intro H; inversion H; reflexivity|].
+        destruct (bal (touch (clear_frame s) (tx_from t)) (tx_from t) <? parse_amount amt);
+          intro H; inversion H; subst; rewrite ?evs_setbal_g, ?evs_touch_g; reflexivity. }
+      intro H; inversion H; subst. destruct res; rewrite ?evs_revert_all, He; constructor.
+    - destruct (run c (top_ctx idx t) (body (clear_frame s)) (clear_frame s)) as [sx r] eqn:E.
+      destruct (run_events_index c Hx _ _ _ _ _ E) as [l [El F]].
+      intro H; inversion H; subst. destruct res; rewrite ?evs_revert_all, El; exact F.
+    - destruct (run c (top_ctx idx t) (body (clear_frame s)) (clear_frame s)) as [sx r] eqn:E.
+      destruct (run_events_index c Hx _ _ _ _ _ E) as [l [El F]].
+      intro H; inversion H; subst. destruct res; [rewrite El; exact F|].
+      destruct (d_ibtp_no_revert c); rewrite ?evs_revert_all, El; exact F.
+    - intro H; inversion H; subst. constructor. }
+  assert (He2 : evs s2 = evs s1).
+  { revert Ef. unfold fee_phase.
+    destruct (bal (touch s1 (tx_from t)) (tx_from t) <? gas_of t * price e).
+    - destruct (negb (d_fee_after_body (x_fees c)) && _); intro H; inversion H; subst;
+        unfold pay_admins_s; rewrite evs_pay_each_s, evs_setbal_g, evs_revert_all, evs_touch_g; reflexivity.
+    - intro H; inversion H; subst. unfold pay_admins_s. rewrite evs_pay_each_s, evs_setbal_g, evs_touch_g. reflexivity. }
+  intros x Hin. destruct (negb ok && negb (d_failed_events c)); [destruct Hin|].
+  refine (harvest_idx _ _ x idx _ Hin). rewrite evs_touch_g, He2. exact Hb.
+Qed.
+
+(** ... hence, with the repaired harvesting, every entry names a transaction whose receipt is
+    SUCCESS or the one kept exception (target appchain not available, announced as invalid) *)
 
 (** read-only execution leaves the ledger untouched *)
 Theorem view_pure c e s t : fst (view_tx c e s t) = s.
@@ -481,6 +574,27 @@ Proof.
     rewrite app_assoc. reflexivity.
 Qed.
 
+(** the announcements of a whole block: with the repaired harvesting and CrossInvoke handing down
+    the caller's index, every Counter entry names a position of THIS block whose receipt is
+    SUCCESS - never a FAILED transaction, never a position outside the block *)
+Theorem block_counter_sound c e : d_failed_events c = false -> d_cross_index_nonce c = false ->
+  forall ts idx s s' rcs cnt, apply_txs c e idx s ts = (s', rcs, cnt) ->
+  forall x, In x cnt ->
+  exists j, (j < length ts)%nat /\ fst (fst (snd x)) = (idx + N.of_nat j)%N /\ nth j (map r_ok rcs) false = true.
+Proof.
+  intros Hfe Hx ts. induction ts as [|t r IH]; intros idx s s' rcs cnt; simpl.
+  - intro H; inversion H; subst. intros x [].
+  - destruct (apply_tx c e idx s t) as [[s1 rc] c1] eqn:E1.
+    destruct (apply_txs c e (N.succ idx) s1 r) as [[s2 rcs2] c2] eqn:E2.
+    intro H; inversion H; subst; clear H. intros x Hin. apply in_app_or in Hin. destruct Hin as [Hin|Hin].
+    + exists 0%nat. split; [lia|]. split.
+      * rewrite (counter_entries_own_index c e idx s t s1 rc c1 Hx E1 x Hin). simpl. lia.
+      * simpl. destruct (r_ok rc) eqn:Er; [reflexivity|].
+        rewrite (failed_not_delivered c e idx s t s1 rc c1 Hfe E1 Er) in Hin. destruct Hin.
+    + destruct (IH _ _ _ _ _ E2 x Hin) as [j [Hj [Hi Hr]]]. exists (S j). split; [lia|]. split; [|exact Hr].
+      rewrite Hi. rewrite Nat2N.inj_succ. lia.
+Qed.
+
 (** the frame property at every position of a block: for the transaction at position
     [length p] of [p ++ t :: q] the theorem above applies to the state reached after [p] *)
 Theorem block_position_frame c e s pre p t :
@@ -489,7 +603,7 @@ Theorem block_position_frame c e s pre p t :
   tx_invalid t = true \/ is_ibtp t = false \/ d_ibtp_no_revert c = false ->
   let '(si, _, _) := apply_txs c e 0%N (new_block s pre) p in
   let '(si', rc, _) := apply_tx c e (N.of_nat (length p)) si t in
-  d_raw_add c = false \/ tx_raws c si t = [] ->
+  d_raw_add c = false \/ tx_raws c (N.of_nat (length p)) si t = [] ->
   r_ok rc = false -> frame_ok e si si' t.
 Proof.
   intros Hs Hpm Htb Hf Hi.
@@ -511,17 +625,17 @@ Definition kB : key := (2001%N, 2%N).
 Definition mk_tx from n k := {| tx_from := from; tx_nonce := n; tx_kind := k; tx_invalid := false |}.
 
 Definition cfg_raw := {| d_raw_add := true; d_stub_promoted := false; d_ibtp_no_revert := false; d_failed_events := false;
-                        d_stale_changer := false; d_prev_from_memory := false; d_revert_drops_tombstone := false; x_fees := {| d_self_transfer := false; d_neg_amount := false; d_fee_after_body := false |} |}.
+                        d_stale_changer := false; d_prev_from_memory := false; d_revert_drops_tombstone := false; d_cross_index_nonce := false; x_fees := {| d_self_transfer := false; d_neg_amount := false; d_fee_after_body := false |} |}.
 Definition cfg_stub := {| d_raw_add := true; d_stub_promoted := true; d_ibtp_no_revert := false; d_failed_events := false;
-                        d_stale_changer := false; d_prev_from_memory := false; d_revert_drops_tombstone := false; x_fees := {| d_self_transfer := false; d_neg_amount := false; d_fee_after_body := false |} |}.
+                        d_stale_changer := false; d_prev_from_memory := false; d_revert_drops_tombstone := false; d_cross_index_nonce := false; x_fees := {| d_self_transfer := false; d_neg_amount := false; d_fee_after_body := false |} |}.
 Definition cfg_ibtp := {| d_raw_add := false; d_stub_promoted := false; d_ibtp_no_revert := true; d_failed_events := false;
-                        d_stale_changer := false; d_prev_from_memory := false; d_revert_drops_tombstone := false; x_fees := {| d_self_transfer := false; d_neg_amount := false; d_fee_after_body := false |} |}.
+                        d_stale_changer := false; d_prev_from_memory := false; d_revert_drops_tombstone := false; d_cross_index_nonce := false; x_fees := {| d_self_transfer := false; d_neg_amount := false; d_fee_after_body := false |} |}.
 Definition cfg_events := {| d_raw_add := false; d_stub_promoted := false; d_ibtp_no_revert := false; d_failed_events := true;
-                        d_stale_changer := false; d_prev_from_memory := false; d_revert_drops_tombstone := false; x_fees := {| d_self_transfer := false; d_neg_amount := false; d_fee_after_body := false |} |}.
+                        d_stale_changer := false; d_prev_from_memory := false; d_revert_drops_tombstone := false; d_cross_index_nonce := false; x_fees := {| d_self_transfer := false; d_neg_amount := false; d_fee_after_body := false |} |}.
 Definition cfg_stale := {| d_raw_add := false; d_stub_promoted := false; d_ibtp_no_revert := false; d_failed_events := false;
-                        d_stale_changer := true; d_prev_from_memory := false; d_revert_drops_tombstone := false; x_fees := {| d_self_transfer := false; d_neg_amount := false; d_fee_after_body := false |} |}.
+                        d_stale_changer := true; d_prev_from_memory := false; d_revert_drops_tombstone := false; d_cross_index_nonce := false; x_fees := {| d_self_transfer := false; d_neg_amount := false; d_fee_after_body := false |} |}.
 Definition cfg_fab := {| d_raw_add := false; d_stub_promoted := false; d_ibtp_no_revert := false; d_failed_events := false;
-                        d_stale_changer := false; d_prev_from_memory := false; d_revert_drops_tombstone := false; x_fees := {| d_self_transfer := false; d_neg_amount := false; d_fee_after_body := true |} |}.
+                        d_stale_changer := false; d_prev_from_memory := false; d_revert_drops_tombstone := false; d_cross_index_nonce := false; x_fees := {| d_self_transfer := false; d_neg_amount := false; d_fee_after_body := true |} |}.
 
 (** a non-journaled write followed by any failure (here: the fee) survives the revert *)
 Theorem raw_add_refuted :
@@ -573,7 +687,7 @@ Proof. vm_compute. repeat split; reflexivity. Qed.
 (** cold cache (after a restart): the journal of a blind overwrite records "no previous value" for a
     key that is only on disk; the FAILED transaction's revert leaves the key deleted *)
 Definition cfg_prevmem := {| d_raw_add := false; d_stub_promoted := false; d_ibtp_no_revert := false; d_failed_events := false;
-                            d_stale_changer := false; d_prev_from_memory := true; d_revert_drops_tombstone := false;
+                            d_stale_changer := false; d_prev_from_memory := true; d_revert_drops_tombstone := false; d_cross_index_nonce := false;
                             x_fees := fcfg_fixed |}.
 Definition s_cold : st :=
   mkSt (fun x => if key_eqb x kA then Some 9%N else None) (fun _ => 0) (fun _ => 0%N) (fun _ => None) 0%N [] []
@@ -598,7 +712,7 @@ Proof. vm_compute. repeat split; reflexivity. Qed.
 (** an earlier SUCCESSFUL transaction of the block deleted a committed key; the revert of a later
     FAILED write of that key drops the deletion marker: the key reads as its old value again *)
 Definition cfg_tomb := {| d_raw_add := false; d_stub_promoted := false; d_ibtp_no_revert := false; d_failed_events := false;
-                         d_stale_changer := false; d_prev_from_memory := false; d_revert_drops_tombstone := true;
+                         d_stale_changer := false; d_prev_from_memory := false; d_revert_drops_tombstone := true; d_cross_index_nonce := false;
                          x_fees := fcfg_fixed |}.
 Definition s_committed : st :=
   mkSt (fun x => if key_eqb x kA then Some 9%N else None) (fun _ => 0) (fun _ => 0%N) (fun _ => None) 0%N [] []
@@ -642,6 +756,29 @@ Example generic_example :
   bal s' 5%N = 0 /\ bal s' 1%N = 0 /\ bal s' 1000%N = 50000 /\ nonce s' 1%N = 42%N.
 Proof. vm_compute. repeat split; reflexivity. Qed.
 
+(** CrossInvoke hands the transaction's NONCE to the callee as its index (mutation class): a relay
+    contract cross-invokes an emitter; sender 1 has nonce 2 and sits at position 0, the FAILED
+    call of sender 3 sits at position 2 - and is announced to chain 9 as a valid delivery, while
+    the transaction that posted the event is not announced at all *)
+Definition cfg_crossidx := {| d_raw_add := false; d_stub_promoted := false; d_ibtp_no_revert := false; d_failed_events := false;
+                             d_stale_changer := false; d_prev_from_memory := false; d_revert_drops_tombstone := false;
+                             d_cross_index_nonce := true; x_fees := fcfg_fixed |}.
+Definition relay_prog : prog := Cross 2003%N (PostEvent (EvInterchain [(9%N, false)]) Done) Done (Fail false).
+Definition relay_block :=
+  [mk_tx 1%N 2%N (KBvm (fun _ => relay_prog));
+   mk_tx 2%N 0%N (KBvm (fun _ => JWrite kA 4%N Done));
+   mk_tx 3%N 0%N (KBvm (fun _ => JWrite kB 5%N Panic))].
+
+Theorem cross_index_nonce_refuted :
+  let '(_, rcs, cnt) := exec_block cfg_crossidx env1 s_empty [] relay_block in
+  map r_ok rcs = [true; true; false] /\ cnt = [(9%N, (2%N, true, false))].
+Proof. vm_compute. split; reflexivity. Qed.
+
+Example cross_index_fixed :
+  let '(_, rcs, cnt) := exec_block xcfg_fixed env1 s_empty [] relay_block in
+  map r_ok rcs = [true; true; false] /\ cnt = [(9%N, (0%N, true, false))].
+Proof. vm_compute. split; reflexivity. Qed.
+
 (** the boolean predicates the judge evaluates on implementation traces, as propositions *)
 Definition p_store (k : xcase) : Prop :=
   (forall x, In x (changed_keys k) -> exists y, In y (succ_keys k) /\ x = y) /\ xc_other k = 0%N.
@@ -656,11 +793,15 @@ Qed.
 
 Definition p_counter (k : xcase) : Prop :=
   forall x : counter_entry, In x (xc_ocnt k) ->
-    snd (fst (snd x)) = true -> nth (N.to_nat (fst (fst (snd x)))) (xc_recs k) false = true.
+    snd (fst (snd x)) = true ->
+    nth (N.to_nat (fst (fst (snd x)))) (xc_recs k) false = true /\
+    In (fst x) (nth (N.to_nat (fst (fst (snd x)))) (xc_posted k) []).
 
 Lemma p_counter_b_spec k : p_counter_b k = true <-> p_counter k.
 Proof.
   unfold p_counter_b, p_counter. rewrite forallb_forall. split; intros H x Hx.
-  - intro Hv. specialize (H x Hx). rewrite Hv in H. exact H.
-  - specialize (H x Hx). destruct (snd (fst (snd x))); [apply H; reflexivity | reflexivity].
+  - intro Hv. specialize (H x Hx). rewrite Hv in H. simpl in H. apply andb_true_iff in H. destruct H as [H1 H2].
+    split; [exact H1|]. apply existsb_exists in H2. destruct H2 as [y [Hy He]]. apply N.eqb_eq in He. subst y. exact Hy.
+  - specialize (H x Hx). destruct (snd (fst (snd x))); [|reflexivity]. destruct (H eq_refl) as [H1 H2]. simpl.
+    rewrite H1. simpl. apply existsb_exists. exists (fst x). split; [exact H2 | apply N.eqb_refl].
 Qed.
